@@ -60,6 +60,12 @@ impl<T: Qcow2IoOps> Qcow2Dev<T> {
             return Ok(());
         }
 
+        // A cluster that is released here can be handed out again at once:
+        // no guest read or write may be in flight on it.  Those are not
+        // tracked per cluster, so wait for all of them and keep new ones
+        // out until the range is done.
+        let _io = self.io_lock.write().await;
+
         log::trace!(
             "discard guest [{:x}, {:x}) -> whole-cluster [{:x}, {:x})",
             virtual_offset,
